@@ -17,9 +17,10 @@ import (
 // ---------------------------------------------------------------- recorder
 
 type recorder struct {
-	p      *program
-	ev     []event
-	faults []string // things a listener saw that cannot be expressed as an event
+	probePC bool // also call InternalFunction.SourceOffsetForPC with the iterator's own program counter
+	p       *program
+	ev      []event
+	faults  []string // things a listener saw that cannot be expressed as an event
 }
 
 func nodeOfDef(def api.FunctionDefinition) int {
@@ -69,7 +70,20 @@ func (l *nodeListener) Before(_ context.Context, _ api.Module, def api.FunctionD
 	e := event{K: 'B', Fn: l.node}
 	e.Vals, e.Extra = maskVals(l.rec.p.sigs[l.node].P, params)
 	for si.Next() {
-		e.Stack = append(e.Stack, nodeOfDef(si.Function().Definition()))
+		fn := si.Function()
+		e.Stack = append(e.Stack, nodeOfDef(fn.Definition()))
+		pc := si.ProgramCounter()
+		e.PCs = append(e.PCs, uint64(pc))
+		if l.rec.probePC {
+			func() {
+				defer func() {
+					if r := recover(); r != nil {
+						l.rec.faults = append(l.rec.faults, fmt.Sprintf("SourceOffsetForPC panics: with the program counter the iterator reported itself: %v", r))
+					}
+				}()
+				_ = fn.SourceOffsetForPC(pc)
+			}()
+		}
 		if len(e.Stack) > 200 {
 			l.rec.faults = append(l.rec.faults, "stack iterator does not terminate")
 			break
@@ -103,6 +117,65 @@ func (r *recorder) factory(set func(int) bool, all bool) experimental.FunctionLi
 		}
 		return nil
 	})
+}
+
+// ---------------------------------------------------------------- factory compositions
+
+// component is one listener factory inside the factory under test, with its own recorder.
+type component struct {
+	Name       string
+	rec        *recorder
+	set        func(int) bool
+	BeforeOnly bool // built from the FunctionListenerFunc adapter: sees before-events only
+}
+
+type everyDef struct {
+	f func(api.FunctionDefinition) experimental.FunctionListener
+}
+
+func (e everyDef) NewFunctionListener(d api.FunctionDefinition) experimental.FunctionListener {
+	return e.f(d)
+}
+
+// compose builds the factory under test. comp:
+//
+//	0 single factory for the set (all=true: the factory that does not look at the definition)
+//	1 MultiFunctionListenerFactory(set, set)
+//	2 MultiFunctionListenerFactory(every function, set)
+//	3 MultiFunctionListenerFactory(set, factory returning nil everywhere, set)
+//	4 MultiFunctionListenerFactory(FunctionListenerFactoryFunc -> FunctionListenerFunc adapter on set, set)
+//
+// The last component is the "primary" one (its stream is runResult.Ev).
+func compose(p *program, comp int, set func(int) bool, all bool, probePC bool) (experimental.FunctionListenerFactory, []*component) {
+	mk := func(name string, s func(int) bool) *component {
+		return &component{Name: name, rec: &recorder{p: p, probePC: probePC}, set: s}
+	}
+	full := func(int) bool { return true }
+	nilF := experimental.FunctionListenerFactoryFunc(func(api.FunctionDefinition) experimental.FunctionListener { return nil })
+	switch comp {
+	case 1:
+		a, b := mk("first-of-two", set), mk("second-of-two", set)
+		return experimental.MultiFunctionListenerFactory(a.rec.factory(set, all), b.rec.factory(set, all)), []*component{a, b}
+	case 2:
+		a, b := mk("every-function", full), mk("subset", set)
+		return experimental.MultiFunctionListenerFactory(everyDef{a.rec.factory(full, false).NewFunctionListener}, b.rec.factory(set, all)), []*component{a, b}
+	case 3:
+		a, b := mk("first-of-three", set), mk("third-of-three", set)
+		return experimental.MultiFunctionListenerFactory(a.rec.factory(set, all), nilF, b.rec.factory(set, all)), []*component{a, b}
+	case 4:
+		a, b := mk("listener-func-adapter", set), mk("beside-adapter", set)
+		a.BeforeOnly = true
+		af := experimental.FunctionListenerFactoryFunc(func(def api.FunctionDefinition) experimental.FunctionListener {
+			n := nodeOfDef(def)
+			if all || (n >= 0 && set(n)) {
+				return experimental.FunctionListenerFunc((&nodeListener{rec: a.rec, node: n}).Before)
+			}
+			return nil
+		})
+		return experimental.MultiFunctionListenerFactory(af, b.rec.factory(set, all)), []*component{a, b}
+	}
+	c := mk("single", set)
+	return c.rec.factory(set, all), []*component{c}
 }
 
 // ---------------------------------------------------------------- host functions
@@ -191,6 +264,7 @@ type runSpec struct {
 	Listen  bool   // false = no factory installed at all (baseline)
 	Mask    uint64 // listened nodes
 	All     bool   // all-functions factory
+	Comp    int    // factory composition, see compose
 }
 
 func (s runSpec) set() func(int) bool {
@@ -202,6 +276,7 @@ type runResult struct {
 	Ev     []event // events seen by the factory installed for the compilation that is instantiated
 	EvA    []event // events seen by the factory of the earlier compilation (histories twice/cache/reopen)
 	Faults []string
+	Comps  []*component // every component listener's own stream (the last one is Ev)
 }
 
 func rtConfig(engine string) wazero.RuntimeConfig {
@@ -244,7 +319,10 @@ func runCase(p *program, spec runSpec) (res runResult) {
 			setA, allA = func(i int) bool { return !inner(i) }, false
 		}
 		ctxA = experimental.WithFunctionListenerFactory(ctx, recA.factory(setA, allA))
-		ctxB = experimental.WithFunctionListenerFactory(ctx, recB.factory(spec.set(), spec.All))
+		fB, comps := compose(p, spec.Comp, spec.set(), spec.All, spec.History == "once")
+		res.Comps = comps
+		recB = comps[len(comps)-1].rec
+		ctxB = experimental.WithFunctionListenerFactory(ctx, fB)
 	}
 	cfg := rtConfig(spec.Engine)
 	var cache wazero.CompilationCache
@@ -380,6 +458,9 @@ func runCase(p *program, spec runSpec) (res runResult) {
 	}
 	res.Ev, res.EvA = recB.ev, recA.ev
 	res.Faults = append(recA.faults, recB.faults...)
+	for _, c := range res.Comps[:max(len(res.Comps)-1, 0)] {
+		res.Faults = append(res.Faults, c.rec.faults...)
+	}
 	return res
 }
 
